@@ -126,6 +126,15 @@ class DP:
     v: List[float] = field(default_factory=lambda: [0.0])
 
 
+class WithData(SimObj):
+    """a class whose parameter is an Optional[dataclass]: nested dataclass-typed sub-argument"""
+
+    def __init__(self, d: Optional[D] = None, k: int = 0):
+        self._rec(d=d, k=k)
+        self.d = d
+        self.k = k
+
+
 class Color(Enum):
     red = 1
     green = 2
